@@ -278,6 +278,16 @@ impl<Builder: OctetsBuilder> Decoder<Builder> {
         self.next += 1;
 
         if self.next == 4 {
+            // The group is complete. Start a new one (or, after padding,
+            // refuse further input) whatever happens below, so that `next`
+            // never stays beyond the end of `buf`.
+            self.next = if self.buf[3] != 0x80 { 0 } else { 0xF0 };
+            if self.buf[3] != 0x80 && self.buf[2] == 0x80 {
+                // Data after padding.
+                self.next = 0xF0;
+                self.target = Err(DecodeError::TrailingInput);
+                return Err(DecodeError::TrailingInput);
+            }
             let target = self.target.as_mut().unwrap(); // Err covered above.
             target
                 .append_slice(&[(self.buf[0] << 2) | (self.buf[1] >> 4)])
@@ -288,15 +298,9 @@ impl<Builder: OctetsBuilder> Decoder<Builder> {
                     .map_err(Into::into)?;
             }
             if self.buf[3] != 0x80 {
-                if self.buf[2] == 0x80 {
-                    return Err(DecodeError::TrailingInput);
-                }
                 target
                     .append_slice(&[(self.buf[2] << 6) | self.buf[3]])
                     .map_err(Into::into)?;
-                self.next = 0
-            } else {
-                self.next = 0xF0
             }
         }
 
@@ -377,6 +381,8 @@ impl SymbolConverter {
                     self.next = EOF_MARKER;
                     Ok(Some(&self.output[..1]))
                 } else {
+                    // Don’t leave `next` beyond the end of `input`.
+                    self.next = EOF_MARKER;
                     Err(Error::custom("illegal Base 64 data"))
                 }
             } else {
